@@ -159,7 +159,7 @@ def probe_lane(v):
     names = sorted(f[:-3] for f in os.listdir(os.path.join(PROBES, "src", "bin")) if f.endswith(".rs"))
     if not any("BUILT" in s for s in status.values()) and "error" in err and not status:
         raise C.Inconclusive("probe crate does not build at all:\n" + err[-2000:])
-    built = [n for n in names if "BUILT" in status.get(n, [])]
+    built = [n for n in names if "BUILT" in status.get(n, []) and not n.startswith("mustreject_")]
     verdicts = {}
     mtarget = os.path.join(C.BUILD, "probes-miri")
     if built:  # serial first run = build step
@@ -174,6 +174,18 @@ def probe_lane(v):
         st = status.get(n, [])
         codes = [c for c in st if c != "BUILT"]
         ctrl = n.startswith("control_")
+        if n.startswith("mustreject_"):
+            if "BUILT" in st:
+                verdicts[n] = "VIOLATION compiles"
+                v.add_violation(f"C16/unsound-auto-trait/{n[len('mustreject_'):]}", f"safe probe program probes/lifetimes/src/bin/{n}.rs must be rejected by the compiler (a Reference can hold an Rc / raw pointer) but it compiles", "probes", sub=n)
+            elif codes:
+                verdicts[n] = "rejected by the compiler: " + ",".join(sorted(set(map(str, codes))))
+            else:
+                verdicts[n] = "inconclusive: not built, no diagnostics"
+                v.inconclusive.append(f"probe {n}: {verdicts[n]}")
+            v.evaluations += 1
+            v.distinct.add("probe:" + n)
+            continue
         if n in runs:
             rc, out, err, to = runs[n]
             sig, msg = ub_signature(err, "x")
